@@ -79,6 +79,12 @@ def explore(res, rng, n, exhaustive=None):
                                      'api': cyc.API[name], 'input': h, 'scale': s, 'transformed': h2,
                                      'impl_output': cyc.impl_line(a) + ' | ' + cyc.impl_line(b)})
             return
+        # row by row as returned (a range reported in two rows for x and in one row for the transformed history is a changed count table)
+        if len({k0 for k0, _ in a['table']}) != len(a['table']) or len({k0 for k0, _ in b['table']}) != len(b['table']):
+            res.failures.append({'signature': f'C03:{name}:{kind}:split-rows:{enc_list(h)}:{s}', 'clause': kind + ': one range is reported in several rows for one history and not for the other',
+                                 'api': cyc.API[name], 'input': h, 'scale': s, 'transformed': h2,
+                                 'impl_output': {'table_x': a['table'][:8], 'table_transformed': b['table'][:8]}})
+            return
         reqs.append(f'c03t {c} {enc_table(a["table"])} {enc_table(b["table"])}')
         meta.append((kind, cyc.API[name], h, s, h2, a, b))
 
@@ -130,8 +136,35 @@ def explore(res, rng, n, exhaustive=None):
             if 'error' not in a and 'error' not in b:
                 reqs.append(f'c03e 1 0 {c05.enc_itable(a["table"])} {c05.enc_itable(b["table"])}')
                 meta.append(('refine-default-levels', 'astmLevelCrossingCounting', h, s, h2, a, b))
+    # ---- decimal data (k / 10, k / 100: the nearest binary64 numbers, as a user reads them from a file): equal nominal ranges at different
+    # load levels differ in the last bits (0.4 - 0.1 != 0.7 - 0.4); offset and scale must still leave the counts alone
+    for _ in range(max(20, n // 30)):
+        sd = rng.choice([-1, -1, -2])
+        m = rng.choice([5, 6, 8, 10, 14])
+        step = rng.choice([1, 1, 2, 3])
+        hd = [rng.randint(0, 9) * step for _ in range(m)]
+        if rng.random() < 0.5:
+            # a staircase of small cycles of ONE nominal range r at different levels inside a large swing
+            r = rng.choice([1, 2, 3])
+            lv = sorted(rng.sample(range(1, 9), rng.choice([2, 3, 4])))
+            hd = [0] + [v for l in lv for v in (l + r, l)] + [12, rng.choice([0, 2])]
+        if len(set(hd)) < 2:
+            continue
+        if rng.random() < 0.3:
+            hd[-1] = hd[0]
+        d = rng.choice([1, 7, -3, 10, 13])
+        c = rng.choice([2, 3, 10, 7])
+        for name in cyc.NAMES:
+            if not cyc.valid_for(name, hd):
+                continue
+            res.stat('decimal_grid_history')
+            cmp_tables('shift', name, hd, sd, [x + d for x in hd], sd, 1)
+            cmp_tables('scale', name, hd, sd, [c * x for x in hd], sd, c)
+            if name in REVERSIBLE:
+                cmp_tables('reverse', name, hd, sd, hd[::-1], sd, 1)
     config_scale(res, rng, max(12, n // 40))
     cyc.extreme_scale_stream(res, cyc.NAMES, rng, max(12, n // 60))      # scale invariance at magnitudes 2^-1000 … 2^900 (cycle lists, exact)
+    cyc.narrow_dtype_stream(res, cyc.NAMES, rng, max(10, n // 80))
     for (kind, api, h, s, h2, a, b), ans in zip(meta, core.driver_batch(reqs)):
         if ans != 'ok':
             res.failures.append({'signature': f'C03:{api}:{kind}:{enc_list(h)}->{enc_list(h2)}', 'clause': kind, 'api': api,
